@@ -78,17 +78,20 @@ def mods():
 
 # ---------------------------------------------------------------- 1. moments on tables
 def table_cases(r, quick):
-    """(lo, hi, h, curve parameters) for the stub estimator"""
+    """(lo, hi, h, curve parameters) for the stub estimator.  Grids are short and dyadic
+    (the exact model works in un-reduced rationals); N even exercises the last-interval
+    correction of scipy's simpson."""
     out = []
-    shifts = [0.0, 1000.0, float(2 ** 20), 1e6]
-    scales = [1.0, 1e-3, 1e3]
-    n_cases = 18 if quick else 120
+    shifts = [0.0, 1024.0, float(2 ** 20), 1e6]
+    scales = [1.0, 2.0 ** -10, 2.0 ** 10]
+    n_cases = 16 if quick else 96
     for k in range(n_cases):
         sc = r.choice(scales)
         sh = shifts[k % 4] * (sc if r.random() < 0.5 else 1.0)
-        N = r.choice([9, 17, 33]) if k % 3 == 0 else r.randint(6, 30)
-        lo = sh - sc * r.choice([3.0, 4.0, 2.5])
-        hi = sh + sc * r.choice([3.0, 4.0, 5.0])
+        N = [5, 6, 8, 9, 7, 10][k % 6] if quick else r.randint(4, 13)
+        delta = sc * r.choice([1.0, 0.75, 0.5])
+        lo = sh - delta * ((N - 1) // 2) - sc * r.choice([0.0, 0.25])
+        hi = lo + delta * (N - 1)
         h = 5.0 * (hi - lo) / (N + 0.5)
         mass = r.choice([1.0, 0.9997, 0.98, 1.01])
         out.append(dict(lo=lo, hi=hi, h=h, N=N, sc=sc, sh=sh, mass=mass,
@@ -104,8 +107,8 @@ def curve(par):
         p = np.exp(-0.5 * (z - par["skew"]) ** 2) + par["w2"] * np.exp(-0.5 * ((z + 1.5) / 0.5) ** 2)
         p = p * (1 + 0.2 * par["skew"] * z / (1 + z * z))
         area = math.sqrt(2 * math.pi) * (1 + par["w2"] * 0.5)
-        p = par["mass"] * p / (area * sc)
-        return np.round(p * 2.0 ** 30 * sc) / (2.0 ** 30 * sc)      # short mantissas keep the exact model cheap
+        p = par["mass"] * p / area
+        return np.round(p * 2.0 ** 12) / (2.0 ** 12 * sc)      # short mantissas keep the exact model cheap
     return fn
 
 
@@ -413,7 +416,7 @@ def run(rep: C.Report, tier: str) -> int:
                 rep.sample({"table_x": [float(v) for v in o["x"][:5]], "table_p": [float(v) for v in o["p"][:5]],
                             "N": len(o["x"]), "moments_observed": [float(v) for v in o["obs"]]})
     files, index, kinds = [], [], []
-    CH = 3
+    CH = 2
     for i in range(0, len(t_texts), CH):
         body = ("Definition cases : list (list pt * (Q * Q * Q * Q) * Q) :=\n " + C.clist(t_texts[i:i + CH], ";\n ") + ".\n"
                 f"Definition chk (c : list pt * (Q * Q * Q * Q) * Q) : nat := "
